@@ -16,6 +16,7 @@ import (
 	cpumemtypes "github.com/projecteru2/core/resource/plugins/cpumem/types"
 	resourcetypes "github.com/projecteru2/core/resource/types"
 
+	"verifharness/sim"
 	"verifharness/vkit"
 )
 
@@ -23,6 +24,7 @@ type mgrEnv struct {
 	pe   *plugEnv
 	mu   sync.Mutex
 	mgrs map[string]*cobalt.Manager
+	slots map[string]*sim.SlotsPlugin
 }
 
 func newMgrEnv(t *testing.T) *mgrEnv {
@@ -45,6 +47,32 @@ func (me *mgrEnv) manager(shareBase, maxShare int) *cobalt.Manager {
 	}
 	me.mgrs[k] = m
 	return m
+}
+
+// managerWithSecond is manager() plus the harness's second plugin, whose usage writes can be made to fail: the
+// commit of a multi-plugin operation then fails after cpumem has written, and cobalt has to restore cpumem.
+func (me *mgrEnv) managerWithSecond(shareBase, maxShare int) (*cobalt.Manager, *sim.SlotsPlugin) {
+	me.mu.Lock()
+	defer me.mu.Unlock()
+	k := fmt.Sprintf("2nd/%d/%d", shareBase, maxShare)
+	if m, ok := me.mgrs[k]; ok {
+		return m, me.slots[k]
+	}
+	m, err := cobalt.New(baseConfig(shareBase, maxShare))
+	if err != nil {
+		me.pe.t.Fatal(err)
+	}
+	if err := m.LoadPlugins(context.Background(), me.pe.t); err != nil {
+		me.pe.t.Fatal(err)
+	}
+	sl := sim.NewSlotsPlugin()
+	m.AddPlugins(sl)
+	me.mgrs[k] = m
+	if me.slots == nil {
+		me.slots = map[string]*sim.SlotsPlugin{}
+	}
+	me.slots[k] = sl
+	return m, sl
 }
 
 func resOf(q wlRequest) resourcetypes.Resources { return resourcetypes.Resources{"cpumem": q.raw()} }
@@ -229,6 +257,9 @@ type bkOp struct {
 	Count int       `json:"count,omitempty"`
 	Req   wlRequest `json:"request,omitempty"`
 	Pick  int       `json:"pick,omitempty"` // index into the live list (mod len)
+	// SecondFails: the operation runs on a manager with two plugins and the second plugin's usage write fails, i.e.
+	// the commit fails after cpumem has written: the operation must fail and cobalt must restore cpumem's usage
+	SecondFails bool `json:"second_plugin_commit_fails,omitempty"`
 }
 
 type bkHistory struct {
@@ -313,10 +344,24 @@ func TestC08(t *testing.T) {
 		defer jr.Clear()
 		s := h.Node
 		m := me.manager(s.ShareBase, s.MaxShare)
+		var slots *sim.SlotsPlugin
+		for _, op := range h.Ops {
+			if op.SecondFails {
+				m, slots = me.managerWithSecond(s.ShareBase, s.MaxShare)
+				break
+			}
+		}
 		pl := me.pe.plugin(s.ShareBase, s.MaxShare)
 		if err := me.pe.install(pl, node, s); err != nil {
 			rec.Count("generator_invalid_state", 1)
 			return
+		}
+		if slots != nil {
+			slots.Reset()
+			if _, err := slots.AddNode(ctx, node, nil, nil); err != nil {
+				rec.Inconclusive("second plugin: %v", err)
+				return
+			}
 		}
 		var live []liveWL
 		nextID := 0
@@ -329,12 +374,24 @@ func TestC08(t *testing.T) {
 			}
 			desc := fmt.Sprintf("step %d %s", step, op.Kind)
 			rec.Count("ops/"+op.Kind, 1)
+			if op.SecondFails {
+				desc += " (commit fails in the second plugin)"
+				slots.FailNextUsageWrites(1)
+			}
 			switch op.Kind {
 			case "alloc", "rollback-alloc":
 				wr, _, err := m.Alloc(ctx, node, op.Count, resOf(op.Req))
 				if err != nil {
 					rec.Count("refused/"+op.Kind, 1)
+					if op.SecondFails {
+						nontrivial = true
+						rec.Count("failed_commits/"+op.Kind, 1)
+					}
 					break
+				}
+				if op.SecondFails {
+					rec.Violation("failed-commit/"+op.Kind+"/reported-success", desc+": the second plugin refused its usage write but Alloc returned no error", h)
+					return
 				}
 				if op.Kind == "alloc" {
 					for _, w := range wr {
@@ -361,7 +418,15 @@ func TestC08(t *testing.T) {
 				_, delta, newRes, err := m.Realloc(ctx, node, live[idx].res, resOf(op.Req))
 				if err != nil {
 					rec.Count("refused/"+op.Kind, 1)
+					if op.SecondFails {
+						nontrivial = true
+						rec.Count("failed_commits/"+op.Kind, 1)
+					}
 					break
+				}
+				if op.SecondFails {
+					rec.Violation("failed-commit/"+op.Kind+"/reported-success", desc+": the second plugin refused its usage write but Realloc returned no error", h)
+					return
 				}
 				if len(s.NUMA) > 0 {
 					nontrivial = true
@@ -387,10 +452,21 @@ func TestC08(t *testing.T) {
 				}
 				idx := op.Pick % len(live)
 				if _, _, err := m.SetNodeResourceUsage(ctx, node, nil, nil, []resourcetypes.Resources{live[idx].res}, true, plugins.Decr); err != nil {
+					if op.SecondFails {
+						nontrivial = true
+						rec.Count("failed_commits/release", 1)
+						break // the workload stays live, usage must be what it was
+					}
 					rec.Violation("release/failed", fmt.Sprintf("%s: releasing a live workload failed: %v", desc, err), h)
+					return
+				} else if op.SecondFails {
+					rec.Violation("failed-commit/release/reported-success", desc+": the second plugin refused its usage write but the release returned no error", h)
 					return
 				}
 				live = append(live[:idx], live[idx+1:]...)
+			}
+			if slots != nil {
+				slots.FailNextUsageWrites(0) // the operation may have been refused before its commit
 			}
 			// conservation after every step
 			cpu, cpuMap, mem, numa, perr := sumLive(live)
@@ -503,6 +579,13 @@ func genBkHistory(r *rand.Rand, env *vkit.Env) *bkHistory {
 			op.Req = d
 		}
 		h.Ops = append(h.Ops, op)
+	}
+	if r.Intn(3) == 0 { // a history on a two-plugin manager in which some commits fail in the second plugin
+		for i := range h.Ops {
+			if k := h.Ops[i].Kind; (k == "alloc" || k == "realloc" || k == "release") && r.Intn(4) == 0 {
+				h.Ops[i].SecondFails = true
+			}
+		}
 	}
 	return h
 }
